@@ -16,6 +16,7 @@
 //   o <h> ...                                        Circuit::m_nodes in storage order
 //   n <h> <id> <cls> <ref> <grp|-> <nIn> <d.p|-|?>… <nOut> {<kind> <width> <nCons> <c.p|?>…}… <nClk> <clk|-|?>…
 //   g <gid> <n> <h|?>…                                NodeGroup::m_nodes in order
+//   gt <gid> <parent|-|?> <n> <child|!|?>…            NodeGroup::m_parent and the child slots in order ('!' = null unique_ptr)
 //   k <cid> <clkdrv|-|?> <rstdrv|-|?> <n> <h.p|?>… c <m> <h.p|?>…    Clock::m_clockDriver, m_resetDriver, m_clockedNodes (sorted by handle),
 //                                                     m_clockedNodesCache (in order); all peeked, never through getClockedNodes()  (k <cid> x : destroyed)
 //   <cls>: 0 other, 1 Node_Signal, 2 Node_Signal2Clk, 3 Node_Signal2Rst
@@ -158,6 +159,19 @@ static void dumpGraph(std::ostream &o, const hlim::Circuit &c, const Maps &m, bo
 		auto &ns = m.groups[g]->getNodes();
 		o << "g " << g << ' ' << ns.size();
 		for (auto *n : ns) { auto it = m.node.find(n); if (it == m.node.end()) o << " ?"; else o << ' ' << it->second; }
+		o << '\n';
+	}
+	// the group tree: parent pointer and child slots of every group, through raw pointers (a null / foreign slot is printed, not followed)
+	for (size_t g = 0; g < m.groups.size(); g++) {
+		const hlim::NodeGroup *par = m.groups[g]->getParent();
+		o << "gt " << g << ' ';
+		if (par == nullptr) o << '-'; else { auto it = m.group.find(par); if (it == m.group.end()) o << '?'; else o << it->second; }
+		auto &ch = m.groups[g]->getChildren();
+		o << ' ' << ch.size();
+		for (auto &c : ch) {
+			const hlim::NodeGroup *cp = c.get();
+			if (cp == nullptr) o << " !"; else { auto it = m.group.find(cp); if (it == m.group.end()) o << " ?"; else o << ' ' << it->second; }
+		}
 		o << '\n';
 	}
 	for (size_t k = 0; k < m.clocks.size(); k++) {
@@ -417,7 +431,13 @@ struct OpsCase {
 			hlim::ConnectionType t; t.type = rng.chance(1, 3) ? hlim::ConnectionType::BOOL : hlim::ConnectionType::BITVEC; t.width = t.type == hlim::ConnectionType::BOOL ? 1 : 1 + rng.below(3);
 			exec("settype " + hs + " " + std::to_string(op_) + " " + std::to_string((int)t.type) + " " + std::to_string(t.width), [&] { x->stype(op_, t); });
 		} else if (op < 81) { // moveToGroup
-			if (rng.chance(1, 6) && groups.size() < 5) {
+			if (rng.chance(1, 4) && groups.size() >= 2) { // NodeGroup::moveInto: first / middle / last / only child, into sibling, uncle, ancestor …
+				size_t gi = 1 + rng.below(groups.size() - 1), pi = rng.below(groups.size());
+				// not into itself or one of its own descendants (that would detach the subtree into a cycle)
+				bool legal = pi != gi && !groups[pi]->isChildOf(groups[gi]);
+				if (legal) { exec("moveinto " + std::to_string(gi) + " " + std::to_string(pi), [&] { groups[gi]->moveInto(groups[pi]); }); return; }
+			}
+			if (rng.chance(1, 5) && groups.size() < 7) {
 				auto *par = groups[rng.below(groups.size())];
 				auto *g = par->addChildNodeGroup(rng.chance(1, 2) ? hlim::NodeGroupType::ENTITY : hlim::NodeGroupType::AREA, "g");
 				m.group[g] = groups.size(); m.groups.push_back(g); groups.push_back(g);
